@@ -111,7 +111,8 @@ def _brief(m):
 
 def do_seeded(a):
     base = os.path.join(VERIF, "seeded")
-    dirs = sorted(d for d in os.listdir(base) if os.path.isdir(os.path.join(base, d)))
+    # a directory without patch.diff holds a retired change (patch.retired.diff, see its meta.json)
+    dirs = sorted(d for d in os.listdir(base) if os.path.isfile(os.path.join(base, d, "patch.diff")))
     if a.only:
         dirs = [d for d in dirs if d in a.only or any(d.startswith(o) for o in a.only)]
 
@@ -142,7 +143,7 @@ ALL_PIDS = ["C01", "C04", "C05", "C11", "C12", "C13", "C14", "C15", "C17", "C20"
 def do_benign(a):
     """Behaviour-preserving changes (/verif/benign/<id>/patch.diff): every check must stay silent (exit 0)."""
     base = os.path.join(VERIF, "benign")
-    dirs = sorted(d for d in os.listdir(base) if os.path.isdir(os.path.join(base, d)))
+    dirs = sorted(d for d in os.listdir(base) if os.path.isfile(os.path.join(base, d, "patch.diff")))
     if a.only:
         dirs = [d for d in dirs if d in a.only]
 
